@@ -1,9 +1,12 @@
 package checks
 
 import (
+	"context"
 	"fmt"
 	"net/netip"
 	"time"
+
+	"github.com/DataDog/datadog-traceroute/traceroute"
 
 	"verif/harness/drive"
 	"verif/harness/fw"
@@ -477,7 +480,53 @@ func checkC06() fw.Check {
 					}
 				}
 			}
+			// whole requests: the endpoints reported by RunTraceroute vs the wire, with the port omitted (documented
+			// default) and given, both families
+			for _, proto := range []string{"udp", "tcp", "icmp"} {
+				for _, port := range []int{0, 8080, 33434} {
+					for _, v6 := range []bool{false, true} {
+						proto, port, v6 := proto, port, v6
+						cases = append(cases, fw.Case{ID: fmt.Sprintf("C06/request/%s/port%d/v6%v", proto, port, v6), Bubble: true, Run: func(c *fw.Ctx) {
+							runC06Request(c, c.ID, proto, port, v6)
+						}})
+					}
+				}
+			}
 			return cases
 		},
 	}
+}
+
+func runC06Request(c *fw.Ctx, id, proto string, port int, v6 bool) {
+	resetProcessState()
+	vn := map[string]string{"udp": "udp4", "tcp": "syn", "icmp": "icmp4"}[proto]
+	if v6 {
+		vn = map[string]string{"udp": "udp6", "tcp": "syn", "icmp": "icmp6"}[proto]
+		if proto == "tcp" {
+			return // the TCP variants are IPv4 only
+		}
+	}
+	v := refmatch.VariantByName(vn)
+	target := drive.TargetFor(v, 40+c.Worker)
+	params := traceroute.TracerouteParams{Hostname: target.String(), Port: port, Protocol: proto, MinTTL: 1, MaxTTL: 5, Delay: 2, Timeout: 60 * time.Millisecond,
+		TCPMethod: traceroute.TCPConfigSYN, WantV6: v6, TracerouteQueries: 2, E2eQueries: 2}
+	wire := port
+	if wire == 0 {
+		wire = 33434
+	}
+	env, err := newReqEnv(c, params, target, uint16(wire), false)
+	if err != nil {
+		c.Inconclusive(err.Error())
+		return
+	}
+	defer env.close()
+	env.modelFor = func(k int, e *simEnv) *pathModel { return flowPath(k, e, 4, true, 300*time.Microsecond) }
+	res, rerr := env.run(context.Background())
+	env.monitors(id)
+	if rerr != nil {
+		c.Violate("C06", "request-failed", fmt.Sprintf("%s: fault-free request failed: %v", id, rerr), nil)
+		return
+	}
+	env.judgeRuns(res, id)
+	c.Nontrivial(fmt.Sprintf("request/%s/port%d/v6%v", proto, port, v6))
 }
